@@ -493,5 +493,98 @@ func Returns(fn *ssa.Function) []*ssa.Return {
 
 // Result returns the k-th result of ret with defer spills resolved.
 func Result(ret *ssa.Return, k int) ssa.Value {
-	return Unspill(ret.Results[k])
+	v := Unspill(ret.Results[k])
+	// a named result assigned earlier (`sig, err = f(); ...; return OK, sig` in a function with defer): the one store that
+	// reaches the load on every path, unspilled again
+	for i := 0; i < 3; i++ {
+		r := ReachingStore(v)
+		if r == v {
+			break
+		}
+		v = Unspill(r)
+	}
+	return v
+}
+
+// ReachingStore resolves a load of a local cell to the value of the single store that reaches it on every path from the
+// cell's allocation (no path without a store, no two different stores, no closure that writes the cell). Otherwise v itself.
+func ReachingStore(v ssa.Value) ssa.Value {
+	u, ok := v.(*ssa.UnOp)
+	if !ok || u.Op != token.MUL {
+		return v
+	}
+	a, ok := u.X.(*ssa.Alloc)
+	if !ok || cellCapturedByWriter(a) {
+		return v
+	}
+	// the address must not be used other than by loads, stores and (reading) closures
+	for _, r := range *a.Referrers() {
+		switch x := r.(type) {
+		case *ssa.Store:
+			if x.Val == ssa.Value(a) {
+				return v
+			}
+		case *ssa.UnOp, *ssa.DebugRef, *ssa.MakeClosure:
+		default:
+			return v
+		}
+	}
+	b := u.Block()
+	if b == nil {
+		return v
+	}
+	var found *ssa.Store
+	type pos struct {
+		b   *ssa.BasicBlock
+		idx int
+	}
+	seen := map[*ssa.BasicBlock]bool{}
+	start := -1
+	for i, ins := range b.Instrs {
+		if ins == ssa.Instruction(u) {
+			start = i
+		}
+	}
+	work := []pos{{b, start}}
+	first := true
+	for len(work) > 0 {
+		p := work[len(work)-1]
+		work = work[:len(work)-1]
+		hit := false
+		for i := p.idx - 1; i >= 0; i-- {
+			ins := p.b.Instrs[i]
+			if st, ok := ins.(*ssa.Store); ok && st.Addr == ssa.Value(a) {
+				if found != nil && found != st {
+					return v
+				}
+				found = st
+				hit = true
+				break
+			}
+			if ins == ssa.Instruction(a) {
+				return v // reached the allocation without a store: the zero value
+			}
+		}
+		if hit {
+			continue
+		}
+		if len(p.b.Preds) == 0 {
+			return v
+		}
+		for _, pr := range p.b.Preds {
+			if pr == b && first {
+				// a loop back into the block of the load: scan it fully
+			}
+			if seen[pr] {
+				continue
+			}
+			seen[pr] = true
+			work = append(work, pos{pr, len(pr.Instrs)})
+		}
+		first = false
+	}
+	if found == nil {
+		return v
+	}
+	return found.Val
 }
